@@ -103,11 +103,12 @@ func c08Prop(t *testing.T, r *hx.Run, sub string) func(c c08Case) hx.Verdict {
 			v.NT = fmt.Sprintf("%s/%s/%x/%d/%d/%v/%v", c.State, dir, []byte(c.Marker), c.Len, c.Type, c.Shared, c.Prefix)
 		}
 		anyFault := fm || fl || ft
-		if !anyFault && !(c.State == stEstablished && c.Type == wire.TypeUpdate) {
-			// a valid header of another type: what happens next is C09's business
-			v.NT = ""
-			v.Class += "/skipped"
-			return v
+		// a valid header of another type / in another state: what the message leads to is C02's
+		// and C09's business, but it must be delimited by its length field and it cannot be
+		// answered with a NOTIFICATION about a marker or a type that were fine
+		odd := !anyFault && !(c.State == stEstablished && c.Type == wire.TypeUpdate)
+		if odd {
+			v.Class += "/valid-header-other"
 		}
 		p := basePeer(c.Out)
 		if c.Hold0 {
@@ -178,11 +179,33 @@ func c08Prop(t *testing.T, r *hx.Run, sub string) func(c c08Case) hx.Verdict {
 				fail("prefix-not-processed", "the handshake preceding the header under test did not establish the session (OnEstablished x%d)", est)
 				return
 			}
-			if c.State != stEstablished && est != 0 {
+			if c.State != stEstablished && est != 0 && !odd {
 				fail("established-unexpectedly", "OnEstablished fired in state %s", c.State)
 				return
 			}
 			st := conn.Snapshot()
+			if odd {
+				if len(upds) < len(wantUpd) {
+					fail("prefix-not-processed", "only %d of the %d well-formed UPDATEs preceding the header under test reached the handler", len(upds), len(wantUpd))
+					return
+				}
+				for i := range wantUpd {
+					if !bytes.Equal(upds[i], wantUpd[i]) {
+						fail("prefix-corrupted", "UPDATE %d preceding the header under test delivered as %x, sent %x", i, clip(upds[i]), clip(wantUpd[i]))
+						return
+					}
+				}
+				for _, m := range after {
+					if m.Type != wire.TypeNotification {
+						continue
+					}
+					if n, _ := wire.ParseNotif(m.Body); n.Code == 1 && (n.Sub == 1 || n.Sub == 3) {
+						fail("notification-for-absent-fault", "every marker sent was sixteen 0xFF octets and every type known (header under test: type %d, length %d in %s), corebgp answered %v: the stream was not delimited by the length fields", c.Type, c.Len, c.State, n)
+						return
+					}
+				}
+				return
+			}
 			if !anyFault {
 				// valid UPDATE header in Established: delimited by the length field alone
 				wantUpd = append(wantUpd, body, trailer)
